@@ -338,9 +338,88 @@ def worklist_progress(fn, header, body):
                                                        if callee_name(t2).startswith(('alloc::vec::Vec', '<alloc::vec::Vec')) and callee_name(t2).endswith(GROW))]
             if not cs or gb in fn.reachable(header, stop=set(cs) | (set(range(len(fn.blocks))) - body)):
                 ok = False
+        if not ok:
+            ok = _visited_protocol(fn, header, body, grows)
         if ok:
             out.add(pb)
     return out
+
+
+def _norm_promoted(fn, v):
+    """repr of a symbolic value with each promoted constant replaced by what it holds (two `== Type::Array` tests use two promoteds)"""
+    import re as _re
+    from rules.unsafe_inv import _enum_of_promoted
+
+    def sub(x):
+        if isinstance(x, tuple):
+            if len(x) == 2 and x[0] == 'promoted':
+                try:
+                    e_ = _enum_of_promoted(fn, x)
+                except Exception:
+                    e_ = None
+                return ('promoted-value', e_) if e_ is not None else ('promoted', '?')
+            return tuple(sub(y) for y in x)
+        return x
+    return _re.sub(r'@bb\d+|, \d+\)$', '', repr(sub(v)))
+
+
+def _visited_protocol(fn, header, body, grows):
+    """the other way a work list ends: the list grows only on turns that MARK something not marked before.  Every way from the loop
+    header to a growth passes a marking write on a container C (bitmap `set`, set `insert`), every way to that write passes a read
+    of C (`get`, `contains`), and a branch computed from that read leads back to the header without marking or growing (the
+    `already seen: skip` exit).  Marks are never cleared in the loop, C is finite, so only finitely many turns grow the list."""
+    from rules.shared import LocalFlow
+    MARK = ('::set_unchecked', 'BitSlice<T, O>::set', '::insert', '::set')
+    READ = ('::get_unchecked', '::get', '::contains', '::insert')
+    CLEAR = ('::clear', '::remove', '::fill', '::truncate', '::set_elements')
+
+    def recv(t):
+        v = psc.unref(sym(fn, t['args'][0])) if t['args'] else None
+        for _ in range(4):
+            if isinstance(v, tuple) and v and v[0] == 'call' and v[1].endswith(('::deref', '::deref_mut', '::as_mut_bitslice', '::as_bitslice')) and v[2]:
+                v = psc.unref(v[2][0])
+        return v
+    outside = set(range(len(fn.blocks))) - body
+    marks = [(b, t) for b, t in fn.calls(body) if callee_name(t).endswith(MARK) and ('bitvec' in callee_name(t) or 'HashSet' in callee_name(t) or 'BTreeSet' in callee_name(t) or 'BitSlice' in callee_name(t))]
+    if not marks:
+        return False
+    lf = LocalFlow(fn)
+    for gb, gt in grows:
+        found = False
+        for mb, mt in marks:
+            C = recv(mt)
+            if gb in fn.reachable(header, stop={mb} | outside):
+                continue          # a way to the growth that marks nothing
+            if any(callee_name(t).endswith(CLEAR) and recv(t) == C for b, t in fn.calls(body)):
+                continue
+            reads = [(b, t) for b, t in fn.calls(body) if callee_name(t).endswith(READ) and recv(t) == C and b != mb]
+            for rb, rt in reads:
+                if mb in fn.reachable(header, stop={rb} | outside):
+                    # the write can be reached without the read (`is_array && bitmap[slot]` reads only for arrays): fine when
+                    # whatever guards the read also guards the growth - a turn that grows the list did make the read
+                    def guard_set(blk):
+                        out_ = set()
+                        for f in psc.facts_at(fn, blk):
+                            if f[0] == 'callbool':
+                                out_.add(('callbool', _norm_promoted(fn, strip(f[1])), f[2]))
+                            elif f[0] in ('Lt', 'Le', 'Gt', 'Ge', 'Eq', 'Ne'):
+                                out_.add((f[0], repr(strip(f[1])), repr(strip(f[2]))))
+                            elif f[0] == 'variant':
+                                out_.add(('variant', repr(strip(f[1])), repr(f[3])))
+                        return out_
+                    if not (guard_set(rb) and guard_set(rb) <= guard_set(gb)):
+                        continue
+                fed = lf.forward(rt['dest']['local'])
+                for sb in body:
+                    tt = fn.term(sb)
+                    if tt['k'] == 'switch' and op_base_local(tt.get('op')) in fed:
+                        if any(header in fn.reachable(x, stop={mb, gb} | outside) | {x} for x in fn.succ(sb) if x in body):
+                            found = True
+            if found:
+                break
+        if not found:
+            return False
+    return True
 
 
 def reslice_progress(fn, header, body):
